@@ -113,7 +113,14 @@ func (r *rot) fill(n int) {
 		if ts < 0 {
 			continue
 		}
-		r.report(id, uint32(ts), r.vals[r.c.rng.Intn(len(r.vals))])
+		v := r.vals[r.c.rng.Intn(len(r.vals))]
+		r.report(id, uint32(ts), v)
+		if r.c.rng.Intn(12) == 0 {
+			// the same content under another valid signature of the device: a distinct report (the slot is
+			// banned), and it stays one after every restart
+			r.Deliver(r.ReportBytes(id, uint32(ts), v, fmt.Sprintf("d%d", id), 1))
+			r.nrep++
+		}
 	}
 }
 
@@ -223,6 +230,11 @@ func runRotate(c *ctx) error {
 			func() error { r.report(2, 652, 1<<63+5); return nil },
 			func() error { r.report(3, 653, 42); return nil },
 			func() error { r.report(3, 653, 42); return nil }, // replay
+			func() error { // the same content re-signed: a second valid report for the slot
+				r.report(1, 655, 60)
+				r.Deliver(r.ReportBytes(1, 655, 60, "d1", 1))
+				return nil
+			},
 			func() error { ban(3); return nil },
 			func() error { r.report(3, 654, 43); return nil }, // banned device
 			func() error { return r.tick(2500) },
